@@ -96,6 +96,45 @@ def lock_discipline(ctx, repo, cg, RULE):
             ctx.ob(RULE, f'{q.replace("beartype.claw.", "")}:{norm(a)}:{"store" if isinstance(getattr(a, "ctx", None), ast.Store) else "access"}',
                    m.where(a), f'access of {norm(a)} is under {LOCK}', ok, why)
     ctx.floor(RULE, n, 15, 'accesses of the shared hook state')
+    # one snapshot per operation: a function that consults the shared state in two separate critical sections lets a
+    # registration land between them (it may see the exclusion list of before and the registrations of after)
+    touch_memo = {}
+
+    def touches(q, depth=0):
+        if q in touch_memo:
+            return touch_memo[q]
+        touch_memo[q] = False
+        if q not in cg.funcs:
+            return False
+        r = bool(_state_accesses(cg.funcs[q][1]))
+        if not r and depth < 3:
+            r = any(touches(cq, depth + 1) for _, cq in cg.calls.get(q, []) if cq)
+        touch_memo[q] = r
+        return r
+    for q, (m, fn) in sorted(cg.funcs.items()):
+        if q in EXEMPT:
+            continue
+        regions = [w for w in ast.walk(fn) if isinstance(w, ast.With) and any(_is_lock(i.context_expr) for i in w.items)
+                   and enclosing_function(w) is fn]
+        if not regions:
+            continue
+        site_callee = {id(c): cq for c, cq in cg.calls.get(q, [])}
+        used = []
+        for w in regions:
+            acc_here = [a for a in _state_accesses(fn) if any(a is x for x in ast.walk(w))]
+            calls_here = [c for c in ast.walk(w) if isinstance(c, ast.Call) and site_callee.get(id(c)) and touches(site_callee[id(c)])]
+            if acc_here or calls_here:
+                used.append(w)
+        # the two halves of a context manager (before / after its yield) are two operations
+        yields = sorted(y.lineno for y in ast.walk(fn) if isinstance(y, (ast.Yield, ast.YieldFrom)) and enclosing_function(y) is fn)
+        segs = {}
+        for w in used:
+            segs.setdefault(sum(1 for y in yields if y < w.lineno), []).append(w)
+        used = max(segs.values(), key=len) if segs else []
+        ctx.ob(RULE, f'{q.replace("beartype.claw.", "")}:one-snapshot', m.where(fn),
+               'the shared hook state is consulted within one critical section per operation', len(used) <= 1,
+               f'{len(used)} separate `with {LOCK}` regions (lines {[w.lineno for w in used]}) consult the registry: a '
+               f'registration may land between them')
 
 
 
